@@ -17,7 +17,7 @@ ASSUMPTIONS = [
     "the parent link of the copy's root is not constrained by the statement",
     "sharing of immutable values (strings) between copy and original is not 'mutable state'",
 ]
-REQUIRED = ["cross_session_documents", "copies", "edits_on_copy", "edits_on_original", "aliasing_checks", "inner_node_copies", "second_generation_copies", "original_registry_entries_rechecked", "copies_with_shared_nsmap_in_original"]
+REQUIRED = ["cross_session_documents", "copies", "edits_on_copy", "edits_on_original", "aliasing_checks", "inner_node_copies", "second_generation_copies", "wide_trees", "trees_with_repeated_id_strings", "original_registry_entries_rechecked", "copies_with_shared_nsmap_in_original"]
 EXHAUSTIVE = {"quick": False, "thorough": False}
 
 EDITS = ("content", "tail", "prefix", "name", "attr_add", "attr_overwrite", "attr_remove", "extras_add", "ns_declare", "ns_redeclare",
@@ -174,7 +174,16 @@ def independence_sweep(ctx, plain, src_index, exhaustive, share=False):
 
 def one_tree(ctx, size, i):
     rng = ctx.rng
-    t = nodegen.random_tree(rng, size, names=nodegen.NAMES, p_ns=0.4)
+    # (one tree in four holds nodes that carry the same id string - the same saved model loaded twice and grafted together, or
+    # caller-assigned ids: they are still distinct nodes, each of which gets its own copy with its own fresh id)
+    same_ids = i % 4 == 3
+    t = nodegen.random_tree(rng, size, names=nodegen.NAMES, p_ns=0.4, p_same_id=0.3 if same_ids else 0.0)
+    if same_ids:
+        ctx.count("trees_with_repeated_id_strings")
+    if i % 9 == 4:
+        emlkit.discard(t)
+        t = nodegen.wide_tree(rng, names=nodegen.NAMES[:6] if rng.random() < 0.5 else None)
+        ctx.count("wide_trees")
     share = rng.random() < 0.5
     if share:
         share_equal_maps(t)
@@ -194,7 +203,7 @@ def one_tree(ctx, size, i):
         ctx.evaluated()
         if src_index:
             ctx.count("inner_node_copies")
-        wit = lambda: {"tree": plain, "copied_index": src_index}
+        wit = lambda: {"tree": plain, "copied_index": src_index, "same_ids": same_ids}
         d = before.diff()
         if d:
             ctx.violation("copy-modifies-original", f"copy() changed the original: {d[0]}", wit())
@@ -263,7 +272,7 @@ def cross_session(ctx):
 def run(ctx, params):
     cross_session(ctx)
     for i in range(params["trees"]):
-        one_tree(ctx, ctx.rng.choice([1, 2, 3, 5, 8, 12, 25, 60]), i)
+        ctx.case(one_tree, ctx, ctx.rng.choice([1, 2, 3, 5, 8, 12, 25, 60]), i, seconds=60.0)
 
 
 def replay(ctx, witness):
@@ -273,15 +282,16 @@ def replay(ctx, witness):
         ctx.distinct(2)
         return
     plain, src_index = witness["tree"], witness.get("copied_index", 0)
-    t = snapshot.from_plain(Node, plain)
+    t = snapshot.from_plain(Node, plain, fresh_ids=not witness.get("same_ids"))
     if witness.get("share"):
         share_equal_maps(t)
     src = snapshot.walk(t)[src_index]
     ids_before = set(Node.store.keys())
+    registered = [(n.id, Node.store.get(n.id)) for n in snapshot.walk(t)]
     c = src.copy()
     ctx.evaluated()
     check_copy(ctx, t, src, c, ids_before, lambda: witness)
-    if any(Node.store.get(n.id) is not n for n in snapshot.walk(t)):
+    if any(Node.store.get(k) is not was for k, was in registered):
         ctx.violation("copy-takes-over-original-id", "after copy() an id of the original resolves to another node", witness)
     try:
         for s2 in snapshot.walk(c):
